@@ -27,6 +27,8 @@ enum In {
     /// a background shell task that writes a file (tasks hold the workspace lock for their whole
     /// execution; they are not linked to a run, so no side-effects frame is due)
     TaskBash,
+    /// a provider run whose model calls `write` (the agent-loop tool path, its own guard site)
+    AgentWrite,
     Read,
     Ls,
 }
@@ -39,6 +41,7 @@ fn input(i: In) -> String {
         In::CheckpointCreate => json!({"checkpoint": {"action": "create", "label": "l", "files": ["a.txt"]}}).to_string(),
         In::WriteTimeout0 => json!({"tool": "write", "args": {"path": "t.txt", "content": "T"}, "timeout_ms": 0}).to_string(),
         In::TaskBash => json!({"tool": "bash", "args": {"command": "echo T > task.txt"}}).to_string(),
+        In::AgentWrite => "please write".to_string(),
         In::Read => json!({"tool": "read", "args": {"path": "seed.txt"}}).to_string(),
         In::Ls => json!({"tool": "ls", "args": {}}).to_string(),
     }
@@ -49,8 +52,20 @@ fn mutating(i: In) -> bool {
 }
 
 fn logs_side_effects(i: In) -> bool {
-    matches!(i, In::WriteA | In::WriteB | In::Patch | In::WriteTimeout0)
+    matches!(i, In::WriteA | In::WriteB | In::Patch | In::WriteTimeout0 | In::AgentWrite)
 }
+
+/// One scripted provider for the whole check (its own runtime); every world uses a fresh key.
+fn provider() -> &'static crate::provx::Provider {
+    static P: std::sync::OnceLock<(crate::provx::Provider, Arc<tokio::runtime::Runtime>)> = std::sync::OnceLock::new();
+    &P.get_or_init(|| {
+        let rt = crate::provx::new_mt_rt();
+        (crate::provx::Provider::start(&rt), rt)
+    })
+    .0
+}
+
+static KEY: std::sync::atomic::AtomicUsize = std::sync::atomic::AtomicUsize::new(0);
 
 struct World {
     fx: Fx,
@@ -91,9 +106,25 @@ fn make_world(rt: &Arc<tokio::runtime::Runtime>, inputs: &[In]) -> (World, Vec<A
         let link = ripd::ContinuityRunLink { continuity_id: thread.clone(), message_id: m, actor_id: "u".into(), origin: "o".into() };
         let engine = fx.engine.clone();
         let rt2 = rt.clone();
+        let cfg = if i == In::AgentWrite {
+            use crate::provx::{sse, Resp};
+            let key = format!("c11-{}/v1/responses", KEY.fetch_add(1, std::sync::atomic::Ordering::SeqCst));
+            let call = json!({"type": "response.output_item.done", "output_index": 0, "item": {"type": "function_call", "id": "fc", "call_id": "c1", "name": "write", "arguments": json!({"path": "agent.txt", "content": "G"}).to_string()}});
+            provider().script(
+                &key,
+                vec![
+                    Resp::Sse { chunks: vec![sse(&[json!({"type": "response.completed", "response": {"id": "r1"}}), call, Value::String("[DONE]".into())])], abort: false },
+                    Resp::Sse { chunks: vec![sse(&[json!({"type": "response.output_text.delta", "delta": "done"}), Value::String("[DONE]".into())])], abort: false },
+                ],
+                true,
+            );
+            Some(crate::provx::config(provider().endpoint(&key)))
+        } else {
+            None
+        };
         actors.push(Box::new(move |ctx: &ActorCtx| {
             let _g = rt2.enter();
-            ctx.block_on(engine.verif_session_future(handle, content, Some(link), None));
+            ctx.block_on(engine.verif_session_future(handle, content, Some(link), cfg));
         }));
     }
     (World { fx, thread, sessions }, actors)
@@ -249,7 +280,7 @@ fn run_config(report: &Report, inputs: &[In], bound: usize) {
 }
 
 pub fn replay(report: &Report, case: &Value) {
-    let all = [In::WriteA, In::WriteB, In::Patch, In::CheckpointCreate, In::WriteTimeout0, In::TaskBash, In::Read, In::Ls];
+    let all = [In::WriteA, In::WriteB, In::Patch, In::CheckpointCreate, In::WriteTimeout0, In::TaskBash, In::AgentWrite, In::Read, In::Ls];
     let inputs: Vec<In> = case["inputs"].as_array().map(|a| a.iter().filter_map(|v| all.iter().copied().find(|i| format!("{i:?}") == v.as_str().unwrap_or(""))).collect()).unwrap_or_default();
     let prefix: Vec<usize> = case["choice_points_only"].as_array().map(|a| a.iter().filter_map(|v| v.as_u64().map(|x| x as usize)).collect()).unwrap_or_default();
     let rt = Arc::new(tokio::runtime::Builder::new_multi_thread().worker_threads(1).enable_all().build().expect("rt"));
@@ -264,7 +295,7 @@ pub fn replay(report: &Report, case: &Value) {
 pub fn run(opts: Opts) -> i32 {
     let report = Report::new("C11", "model_checking", opts.clone());
     report.set_rule(
-        "engine S: every unordered pair (thorough: plus triples at bound 1) of inputs {write a, write b, apply_patch, checkpoint create, write with timeout_ms 0 (ends in tool_failed), a background bash task that writes a file, read, \
+        "engine S: every unordered pair (thorough: plus triples at bound 1) of inputs {write a, write b, apply_patch, checkpoint create, write with timeout_ms 0 (ends in tool_failed), a background bash task that writes a file, a provider run whose model calls write (agent-loop tool path), read, \
          ls} as real run_session futures linked to one thread on one engine; all interleavings at workspace-lock / tool-semaphore / guard \
          and handler span / seq-lock / publish hooks with <=1 (quick) / <=2 (thorough) preemptions; state = distinct executed schedule",
     );
@@ -277,7 +308,7 @@ pub fn run(opts: Opts) -> i32 {
         return report.finish();
     }
     let tier = report.tier();
-    let all = [In::WriteA, In::WriteB, In::Patch, In::CheckpointCreate, In::WriteTimeout0, In::TaskBash, In::Read, In::Ls];
+    let all = [In::WriteA, In::WriteB, In::Patch, In::CheckpointCreate, In::WriteTimeout0, In::TaskBash, In::AgentWrite, In::Read, In::Ls];
     let mut configs: Vec<(Vec<In>, usize)> = Vec::new();
     for (i, a) in all.iter().enumerate() {
         for b in &all[i..] {
